@@ -216,14 +216,25 @@ impl Bundle<FrameContext<'_>> for Frame {
         let data = toc.iter_bitstream_order().map(GroupData::from).collect();
 
         let passes = &header.passes;
-        let mut pass_shifts = BTreeMap::new();
+        let mut pass_shifts = BTreeMap::<u32, (i32, i32)>::new();
+        // `last_pass` may repeat, or name the final pass; merge the shift ranges instead of
+        // replacing the existing entry.
+        let mut add_shift_range = |pass: u32, minshift: i32, maxshift: i32| {
+            pass_shifts
+                .entry(pass)
+                .and_modify(|(min, max)| {
+                    *min = (*min).min(minshift);
+                    *max = (*max).max(maxshift);
+                })
+                .or_insert((minshift, maxshift));
+        };
         let mut maxshift = 3i32;
         for (&downsample, &last_pass) in passes.downsample.iter().zip(&passes.last_pass) {
             let minshift = downsample.trailing_zeros() as i32;
-            pass_shifts.insert(last_pass, (minshift, maxshift));
+            add_shift_range(last_pass, minshift, maxshift);
             maxshift = minshift;
         }
-        pass_shifts.insert(header.passes.num_passes - 1, (0i32, maxshift));
+        add_shift_range(header.passes.num_passes - 1, 0i32, maxshift);
 
         Ok(Self {
             pool,
